@@ -145,6 +145,11 @@ def judge(acc, text, want, rep, tag, case_extra):
         else:
             obs.append(("err", it["err"]["msg"]))
     case["observed"] = obs
+    if want == "error":
+        if len(obs) != 1 or obs[0][0] != "err":
+            acc.violate("c06:%s:not-an-error" % tag, "%r groups left to right into an undefined power (non-integer exponent or zero to a negative power) but gave %s" % (text, obs), case)
+            return False
+        return True
     if len(obs) != 1 or obs[0][0] != "ok":
         acc.violate("c06:%s:wrong-result-list" % tag, "%r should give exactly [%s] but gave %s" % (text, want, obs), case)
         return False
@@ -455,6 +460,18 @@ def shard_misc(p):
                     text = layout(tk, rng, mode)
                     reqs.append({"op": "query", "q": text})
                     meta.append(("random:" + style + ":" + mode, text, v, nops))
+        for _ in range(p.get("n_tower", 40)):
+            # towers of powers whose middle results are NOT what a folded exponent product would give: a non-integer exponent (an
+            # error by the documented rules, whatever follows), a zero base under a negative exponent. Left-grouped with explicit
+            # parentheses, spaced and tight: every spelling must report the same (seed C06-i: a ^ b ^ c folded into a ^ (b * c) only
+            # when no blank precedes the second operator)
+            a_, b_, c_ = rng.choice([("4", "0.5", "2"), ("2", "1.5", "2"), ("9", "2", "0.5"), ("0", "-1", "-1"), ("0", "-1", "0"), ("0", "-2", "2"),
+                                     ("16", "0.25", "4"), ("8", "-0.5", "-2"), ("0", "-1", "1"), ("1", "0.5", "2"), ("27", "-1.5", "2")])
+            variants = ["(%s ^ %s) ^ %s" % (a_, b_, c_), "%s ^ %s ^ %s" % (a_, b_, c_), "%s^%s^%s" % (a_, b_, c_), "%s ^ %s^ %s" % (a_, b_, c_),
+                        "%s^%s ^ %s" % (a_, b_, c_), "%s**%s**%s" % (a_, b_, c_), "%s ** %s**%s" % (a_, b_, c_)]
+            for vtext in variants:
+                reqs.append({"op": "query", "q": vtext})
+                meta.append(("tower-error", vtext, "error", 2))
         for _ in range(p.get("n_huge", 3)):
             # ONE gap (or the front / the end) filled with 2^16 -1/+0/+1 ... blanks: "the number of blanks does not matter" also past
             # whatever width a token length is stored in (seed C06-h)
